@@ -14,6 +14,8 @@ mod token_ring;
 mod test_active;
 
 pub use active::{ConnectivityState, FdlActiveStation};
+#[cfg(profirust_verif)]
+pub use active::VerifView;
 pub use parameters::{Parameters, ParametersBuilder};
 pub(crate) use token_ring::TokenRing;
 
